@@ -230,7 +230,7 @@ where
                    "choose_items": case.choose_items, "schedule": tr.choices(), "preemptions": tr.preemptions(),
                    "labels": tr.labels.iter().map(|(w, l, ln)| format!("w{w}:{l}@{ln}")).collect::<Vec<_>>(), "observed": extra})
         };
-        if let Some(Abort::Diverged(m)) = &tr.abort {
+        if let Some(m) = &tr.diverged {
             eprintln!("MACHINERY ERROR: schedule replay diverged on {key}: {m}");
             std::process::exit(3);
         }
